@@ -342,6 +342,9 @@ func castFloat(v reflect.Value) (reflect.Value, error) {
 }
 
 func castArray(t reflect.Type, v reflect.Value) (reflect.Value, error) {
+	if !v.IsValid() {
+		return reflect.Zero(t), nil
+	}
 	kind := v.Type().Kind()
 	if kind == reflect.Interface {
 		return castArray(t, reflect.ValueOf(v.Interface()))
@@ -367,6 +370,9 @@ func castArray(t reflect.Type, v reflect.Value) (reflect.Value, error) {
 }
 
 func castSlice(t reflect.Type, v reflect.Value) (reflect.Value, error) {
+	if !v.IsValid() {
+		return reflect.Zero(t), nil
+	}
 	kind := v.Type().Kind()
 	if kind == reflect.Interface {
 		return castSlice(t, reflect.ValueOf(v.Interface()))
@@ -389,6 +395,9 @@ func castSlice(t reflect.Type, v reflect.Value) (reflect.Value, error) {
 }
 
 func castMap(t reflect.Type, v reflect.Value) (reflect.Value, error) {
+	if !v.IsValid() {
+		return reflect.Zero(t), nil
+	}
 	ret := reflect.MakeMap(t)
 	switch v.Type().Kind() {
 	case reflect.Map:
@@ -417,6 +426,9 @@ func castMap(t reflect.Type, v reflect.Value) (reflect.Value, error) {
 }
 
 func castStruct(t reflect.Type, v reflect.Value) (reflect.Value, error) {
+	if !v.IsValid() {
+		return reflect.Zero(t), nil
+	}
 	ret := reflect.New(t).Elem()
 	switch v.Type().Kind() {
 	case reflect.Map:
